@@ -2,6 +2,7 @@
     This file contains the property theorems only. *)
 From Coq Require Import List ZArith.
 From Garr Require Import Conc.Conc Conc.Lin Queue.JdkModel Queue.MutexModel Queue.MutexProofs.
+From Garr Require Import Pure.F64 Adder.StripedModel Adder.SimpleModel Adder.AdderSpec Adder.SimpleMutex.
 Import ListNotations.
 
 (** Every client program (any number of threads, any operations among Offer,
@@ -15,3 +16,13 @@ Theorem C19_mutex_queue :
     lin_ok mutexq qret_eqb fifo_spec mutex_lp minit tt [] progs sched = true.
 Proof. exact mutex_queue_linearizable. Qed.
 Print Assumptions C19_mutex_queue.
+
+(** The mutex adder: Add, Inc, Dec, Sum, Reset, SumAndReset and Store are all
+    atomic with respect to each other - every history is that of a single
+    int64 number (wrap-around addition), each call taking effect at its plain
+    read (Sum) or plain write (all others) inside the critical section. *)
+Theorem C19_mutex_adder :
+  forall (progs : list (list aop)) (sched : list nat),
+    lin_ok mutex_adder aret_eqb (counter_spec wadd) xlp xinit tt 0%Z progs sched = true.
+Proof. exact mutex_adder_linearizable. Qed.
+Print Assumptions C19_mutex_adder.
